@@ -390,7 +390,7 @@ def stop_sending_while_streaming(rng):
     def txfn(m):
         out_frames.append(bytes(m.data))
         if bytes(m.data)[0] >> 4 == 1:
-            qin.put(isotp.CanMessage(arbitration_id=0x222, data=bytes([0x30, 0, 20])))       # everything granted, 20 ms apart
+            qin.put(isotp.CanMessage(arbitration_id=0x222, data=bytes([0x30, 0, 50])))       # everything granted, 50 ms apart
     a = isotp.Address(isotp.AddressingMode.Normal_11bits, txid=0x111, rxid=0x222)
     L = isotp.TransportLayer(rxfn=rxfn, txfn=txfn, address=a, params={'blocking_send': True}, read_timeout=0.02)
     fails = []
@@ -652,7 +652,7 @@ def txfn_raises(rng):
 
 
 def overflow_while_streaming(rng):
-    """started layer, Consecutive Frames streamed by the worker at STmin 20 ms: a Flow Control Overflow (or Wait with wftmax 0) arriving
+    """started layer, Consecutive Frames streamed by the worker at STmin 50 ms: a Flow Control Overflow (or Wait with wftmax 0) arriving
     between two of them is read and obeyed at once - OverflowError, the rest of the message is not emitted"""
     import queue
     out_frames, errors = [], []
@@ -667,7 +667,7 @@ def overflow_while_streaming(rng):
     def txfn(m):
         out_frames.append(bytes(m.data))
         if bytes(m.data)[0] >> 4 == 1:
-            qin.put(isotp.CanMessage(arbitration_id=0x222, data=bytes([0x30, 0, 20])))
+            qin.put(isotp.CanMessage(arbitration_id=0x222, data=bytes([0x30, 0, 50])))
     a = isotp.Address(isotp.AddressingMode.Normal_11bits, txid=0x111, rxid=0x222)
     L = isotp.TransportLayer(rxfn=rxfn, txfn=txfn, address=a, params={}, error_handler=errors.append, read_timeout=0.02)
     fails = []
@@ -683,7 +683,7 @@ def overflow_while_streaming(rng):
         ncf = sum(1 for d in out_frames if d[0] >> 4 == 2)
         names = [type(e).__name__ for e in errors]
         if 'OverflowError' not in names or ncf > at + 3 or L.transmitting():
-            fails.append(('overflow-ignored', 'Flow Control Overflow after Consecutive Frame %d of 21 (STmin 20 ms): %d Consecutive Frames emitted 0.4 s later, errors %s, transmitting()=%s' % (at, ncf, names[:2], L.transmitting())))
+            fails.append(('overflow-ignored', 'Flow Control Overflow after Consecutive Frame %d of 21 (STmin 50 ms): %d Consecutive Frames emitted 0.4 s later, errors %s, transmitting()=%s' % (at, ncf, names[:2], L.transmitting())))
     finally:
         L.stop()
     return fails, {'scenario': 'overflow_while_streaming'}
